@@ -110,6 +110,14 @@ AddNew(s, k) ==
   /\ sobs' = [sobs EXCEPT ![s] = << <<ObsAlpha[k]>> >>]
   /\ last' = [op |-> "AddNew", s |-> s, k |-> k]
 
+\* s.add_result(Result(name, type, accumulate_values, choice_num)): a result without observations
+\* (what combine_simulation_results starts from)
+AddEmpty(s) ==
+  /\ sets' = [sets EXCEPT ![s] = <<Empty>>]
+  /\ alias' = Leave(alias, s)
+  /\ sobs' = [sobs EXCEPT ![s] = << <<>> >>]
+  /\ last' = [op |-> "AddEmpty", s |-> s]
+
 \* s[name][-1].update(v, t)
 UpdateLast(s, k) ==
   /\ sets[s] # <<>>
@@ -118,9 +126,13 @@ UpdateLast(s, k) ==
   /\ UNCHANGED alias
   /\ last' = [op |-> "UpdateLast", s |-> s, k |-> k]
 
+\* a MISC result that never saw an observation has no "last observation": merging it IN is outside the law
+MiscGuard(t) == Type = "MISC" => sobs[t][Len(sobs[t])] # <<>>
+
 \* s[name][-1].merge(t[name][-1])
 MergeRes(s, t) ==
   /\ s # t /\ sets[s] # <<>> /\ sets[t] # <<>> /\ t \notin Sharing(s)
+  /\ MiscGuard(t)
   /\ sets' = Mutate(s, ObjMerge(LastOf(s), LastOf(t)))
   /\ sobs' = [sobs EXCEPT ![s][Len(sobs[s])] = @ \o sobs[t][Len(sobs[t])]]
   /\ UNCHANGED alias
@@ -129,6 +141,7 @@ MergeRes(s, t) ==
 \* s.merge_all_results(t): t holds exactly one result
 MergeAll(s, t) ==
   /\ s # t /\ Len(sets[t]) = 1 /\ t \notin Sharing(s)
+  /\ MiscGuard(t)
   /\ IF sets[s] = <<>>
        THEN /\ sets' = [sets EXCEPT ![s] = sets[t]]          \* a copy of t's result ...
             /\ alias' = IF Dev.EmptyMergeAliases                \* ... or the very same object
@@ -150,11 +163,12 @@ AppendAll(s, t) ==
 
 Next ==
   \/ \E s \in S, k \in 1..Len(ObsAlpha) : AddNew(s, k) \/ UpdateLast(s, k)
+  \/ AddEmpty(1)          \* (by symmetry of the sets one place for the empty result suffices)
   \/ \E s \in S, t \in S : MergeRes(s, t) \/ MergeAll(s, t) \/ AppendAll(s, t)
 
-Bound == TotalObs <= MaxObs
-\* a MISC result that never saw an observation has no "last observation"; merging it in is outside the law
-MiscGuard == Type = "MISC" => \A s \in S : \A p \in 1..Len(sobs[s]) : sobs[s][p] # <<>>
+RECURSIVE ResAll(_)
+ResAll(k) == IF k = 0 THEN 0 ELSE Len(sets[k]) + ResAll(k - 1)
+Bound == TotalObs <= MaxObs /\ ResAll(NSets) <= 3
 
 (* ------------------------------ properties ---------------------------------------------- *)
 PartitionLaw == \A s \in S : \A p \in 1..Len(sets[s]) : Agrees(sets[s][p], Fold(sobs[s][p]))
